@@ -576,7 +576,13 @@ impl ClientH {
                 }
                 all
             }
-            CAct::Ack { n } => wire(ser, 0, 0, &M::Ack(*n)),
+            CAct::Ack { n } => {
+                // two acknowledgements: the peer's running total, then a smaller one (the 32-bit total wraps, and some
+                // peers restart it after every acknowledgement)
+                let mut b = wire(ser, 0, 0, &M::Ack(*n));
+                b.extend(wire(ser, 0, 0, &M::Ack(*n / 2)));
+                b
+            }
             CAct::UnknownCommand => wire(ser, 0, 0, &command("fooBar", 9.0, V::Null, vec![s("x")])),
             CAct::Raw { msid, type_id, body } => wire_raw(ser, *msid, 0, *type_id, body),
             _ => return None,
